@@ -506,7 +506,15 @@ def r9_interval(ctx: Ctx) -> None:
     for lits, outcome in paths(c, fall=K_NONE, split_values=True):
         empty = outcome == ("g", "EMPTY_INTERVAL") or (isinstance(outcome, tuple) and outcome[:2] == ("c", ("g", "Interval")) and outcome[2] == (k_num(-1), k_num(-1)))
         full = isinstance(outcome, tuple) and outcome[:2] == ("c", ("g", "Interval")) and contains(outcome, ("g", "max")) and contains(outcome, ("g", "min"))
-        for lit in lits:
+        def atoms_(lit):
+            """the comparisons a branch literal is made of: a conjunction that holds / fails, a disjunction that holds / fails -- each
+            comparison with the polarity it has (for a failed conjunction / a disjunction that holds: may have) on this path"""
+            if isinstance(lit, tuple) and lit[:1] in (("and",), ("or",)):
+                return [a for x in lit[1] for a in atoms_(x)]
+            if isinstance(lit, tuple) and lit[:1] == ("not",) and isinstance(lit[1], tuple) and lit[1][:1] in (("and",), ("or",)):
+                return [a for x in lit[1][1] for a in atoms_(mk_not(x))]
+            return [lit]
+        for lit in [a for l_ in lits for a in atoms_(l_)]:
             pos = not (isinstance(lit, tuple) and lit[:1] == ("not",))
             core = lit if pos else lit[1]
             if not (isinstance(core, tuple) and core[:1] == ("lt0",)):
